@@ -6,8 +6,8 @@ import os, sys, json, hashlib, subprocess, time, fcntl, glob, shutil, re, random
 VERIF = os.path.dirname(os.path.dirname(os.path.abspath(__file__)))
 REPO = os.environ.get("VERIF_REPO", "/repo")
 BUILD = os.path.join(VERIF, ".build")
-OUT = os.path.join(VERIF, "out")
-EVID = os.path.join(VERIF, "evidence")
+OUT = os.environ.get("VERIF_OUT", os.path.join(VERIF, "out"))        # (overridable so that a run against a scratch copy of the
+EVID = os.environ.get("VERIF_EVID", os.path.join(VERIF, "evidence"))  #  repository does not disturb the registered outputs)
 SPECS = os.path.join(VERIF, "specs")
 HARN = os.path.join(VERIF, "harness")
 TLAJAR = "/opt/veriftools/tla/tla2tools.jar"
